@@ -134,6 +134,24 @@ where
             }
         }
     }
+    // "...and nothing else": the `#`, `+`, `-` and `0` flags add nothing either (integers print "0x" for `#`; a byte array has
+    // neither a radix prefix nor a sign)
+    let flagged = match (case.precision, case.upper) {
+        (Some(p), false) => [format!("{:#.p$x}", arr, p = p), format!("{:+.p$x}", arr, p = p), format!("{:-.p$x}", arr, p = p), format!("{:#03.p$x}", arr, p = p)],
+        (Some(p), true) => [format!("{:#.p$X}", arr, p = p), format!("{:+.p$X}", arr, p = p), format!("{:-.p$X}", arr, p = p), format!("{:#03.p$X}", arr, p = p)],
+        (None, false) => [format!("{:#x}", arr), format!("{:+x}", arr), format!("{:-x}", arr), format!("{:#03x}", arr)],
+        (None, true) => [format!("{:#X}", arr), format!("{:+X}", arr), format!("{:-X}", arr), format!("{:#03X}", arr)],
+    };
+    for (i, got) in flagged.iter().enumerate() {
+        if got != want {
+            return Err(format!(
+                "N = {n}, precision {:?}: with flag variant {i} (# / + / - / #03) the output is {:?}..., the digits alone are {:?}...",
+                case.precision,
+                &got[..got.len().min(24)],
+                &want[..want.len().min(24)]
+            ));
+        }
+    }
     // "...and nothing else": a width, fill or alignment in the format spec adds nothing (all three internal strategies agree)
     let w = want.len() + 3;
     if w > 65535 {
@@ -289,7 +307,7 @@ pub fn main() {
             prop: PROP,
             level: "exploration",
             rule: "case = (N in 66 lengths from 0 to 65536 (0..=18, 23, 24, 31..34, 48, 63..65, 100, 127..129, 200, 255..257, 300, 400, 511..513, 600, 768, 1000, 1023..1025, 1500, 2000, 2047..2049, 2500, 3000, 4095..4097, 5000, 6000, 8191..8193, 10000, 16384, 65536), byte pattern, precision, {:x} or {:X}); grid: every precision 0..=2N+2 (and none) for N <= 33, boundary precisions beyond (0..3, 7, every power-of-two digit count from 32 with its neighbours, odd multiples of 2048, 2N-3..2N+1, and 65535 - the largest precision core::fmt accepts), with ramp (all 256 byte values), per-chunk-distinct, nibble-asymmetric and seeded random data; plus proptest-random (data, precision) cases. The check is built and run twice: default features and faster-hex. \
-                   Every case is also formatted from storage at an address that is 1 modulo 8, into a fixed-capacity sink that refuses what does not fit (what reached it must be a prefix of the digits), and with a width (plain, fill + right-aligned, fill + centred) three characters wider than the output: the digits and nothing else must come out. Oracle: reference string built per byte with {:02x} / {:02X}, cut to min(p, 2N) characters. Width, fill and the # flag are not asserted. \
+                   Every case is also formatted from storage at an address that is 1 modulo 8, into a fixed-capacity sink that refuses what does not fit (what reached it must be a prefix of the digits), and with a width (plain, fill + right-aligned, fill + centred) three characters wider than the output: the digits and nothing else must come out; the same with the #, +, - and #0 flags. Oracle: reference string built per byte with {:02x} / {:02X}, cut to min(p, 2N) characters. \
                    non-trivial = N > 0 and (odd precision below 2N, or precision across a 2048-digit chunk boundary, or N at a strategy threshold 15/16/17/1023/1024/1025); distinct = distinct case tuples",
             exhaustive: false,
             assumptions: vec!["faster-hex selects its SIMD path by run-time CPU detection; the paths this CPU does not take are not exercised".into()],
